@@ -21,8 +21,8 @@ MANIFEST = {
     "technique": "Lean 4 proof (streaming algorithm = set-based specification) + differential correspondence with the real tool",
 }
 
-REQUIRED = ["KV.C05.adjust_stream_eq", "KV.C05.stats_eq", "KV.C05.stats_eq_tree", "KV.C05.stats_eq_unfixed_false",
-            "KV.C05.discounts_eq", "KV.C05.prune_exact"]
+REQUIRED = ["KV.C05.stats_eq_stream", "KV.C05.stats_eq_tree", "KV.C05.stats_eq_unfixed_false", "KV.C05.flush_adjusted_tree",
+            "KV.C05.discounts_eq", "KV.C05.chenGoodman_value", "KV.C05.special_ids"]
 
 
 def tree_flags(consts):
@@ -160,22 +160,22 @@ def replay_obj(case, lmplz, findings):
 
 
 def run(ctx):
-    problems, consts = flow.proof_phase(ctx, "C05", probe="probe_C05.cc", required=REQUIRED, drivers=["drv_C05"])
-    ok, bdir, lg = repo.build("tools", targets=["lmplz"])
-    if not ok:
-        problems.append(lg)
-        flow.report_obligation_failures(ctx, problems, False)
-        return
-    lmplz = os.path.join(bdir, "bin", "lmplz")
-    dexe = lean.driver_path("drv_C05")
-    flags = tree_flags(consts)
     wd = os.path.join(SCRATCH, "c05_%d" % os.getpid())
     shutil.rmtree(wd, ignore_errors=True)
     os.makedirs(wd)
+    ok, tools, lg = L.get_tools(["lmplz"], os.path.join(wd, "bin"))
+    if not ok:
+        flow.report_obligation_failures(ctx, ["the tree does not build: " + lg], False)
+        return
+    lmplz = tools["lmplz"]
+    problems, consts = flow.proof_phase(ctx, "C05", probe="probe_C05.cc", probe_flags=['-DLMPLZ_BIN="%s"' % lmplz],
+                                        required=REQUIRED, drivers=["drv_C05"])
+    dexe = lean.driver_path("drv_C05")
+    flags = tree_flags(consts)
     found = False
     try:
         if ctx.tier == "quick":
-            plan = [("witness", 1), ("small", 14), ("mid", 26)]
+            plan = [("witness", 1), ("small", 40), ("mid", 80)]
         else:
             plan = [("witness", 1), ("small", 150), ("mid", 430), ("big", 8)]
         reported = set()
